@@ -400,6 +400,10 @@ func (c *itemCtx) evalWith(fc *filterCase, ex *expectation) (*finding, bufimage.
 		}
 	}
 	st.inc("clause_closure_checked")
+	for sh := range ex.L.AnyShapes {
+		// non-vacuity of the Any clause per type URL shape: the payload was demanded and found
+		st.inc("any_payload_url_" + sh + "_cases")
+	}
 	if ex.Exact {
 		st.inc("closure_exact_cases")
 	}
@@ -951,7 +955,8 @@ func run(r *evid.Run) {
 	for k, v := range total {
 		r.Set(k, v)
 	}
-	for _, clause := range []string{"clause_links_checked", "clause_closure_checked", "clause_no_excluded_checked", "clause_unchanged_checked", "clause_comments_checked", "clause_no_error_checked", "clause_idempotence_checked", "clause_in_place_compared", "clause_contradictory_filter_rejected", "clause_must_fail", "member_fields_dropped_cases", "oneofs_dropped_cases", "shell_cases", "dependency_lists_rewritten", "locations_moved"} {
+	for _, clause := range []string{"clause_links_checked", "clause_closure_checked", "clause_no_excluded_checked", "clause_unchanged_checked", "clause_comments_checked", "clause_no_error_checked", "clause_idempotence_checked", "clause_in_place_compared", "clause_contradictory_filter_rejected", "clause_must_fail", "member_fields_dropped_cases", "oneofs_dropped_cases", "shell_cases", "dependency_lists_rewritten", "locations_moved",
+		"any_payload_url_default_cases", "any_payload_url_single-segment_cases", "any_payload_url_path_cases", "any_payload_url_scheme_cases", "any_payload_url_empty-host_cases"} {
 		if total[clause] == 0 && !r.Expired() {
 			r.Incomplete("clause never exercised: " + clause)
 		}
